@@ -106,6 +106,8 @@ structure Chain where
   logged : Nat := 0                       -- errors the error observer holds (not flushed)
   dropped : Nat := 0                      -- DebugInfos with an unhandled failure
   stages : List (SName × Nat × Nat) := [] -- stage log: name, virtual time, number of log observers
+  live : List Bool := []                  -- per logged stage: was the reactor running when it started?
+  iter : Nat := 0                         -- number of the reactor iteration in progress (0 = before the loop)
   observers : List Nat := []              -- the global log observers (ids)
   realStops : Nat := 0                    -- calls of the genuine `reactor.stop`
 
@@ -126,14 +128,14 @@ def Chain.side (s : Side) (c : Chain) : Chain :=
 
 def doSide (s : Side) (w : W) : W :=
   match s with
-  | .junk d => schedule (w.now + d) (.user 0 .noop) w
+  | .junk d => schedule (w.now + d) (.user w.u.iter .noop) w
   | s => updU (Chain.side s) w
 
 /-- `_got_user_exception` from a main stage (errback of `_run_user`) followed by `fails.append` -/
 def Chain.caught (k : Exc) (c : Chain) : Chain := { c with excs := c.excs ++ [k], fails := true }
 
-def Chain.log (name : SName) (now : Nat) (c : Chain) : Chain :=
-  { c with stages := c.stages ++ [(name, now, c.observers.length)] }
+def Chain.log (name : SName) (now : Nat) (running : Bool) (c : Chain) : Chain :=
+  { c with stages := c.stages ++ [(name, now, c.observers.length)], live := c.live ++ [running] }
 
 inductive Status | completed (r : Option Exc) | pending
 deriving Repr
@@ -146,11 +148,11 @@ def statusOf : Beh → Status
 
 /-- call a stage function: log it, side effects, then its behaviour -/
 def launch (name : SName) (st : Stage) (w : W) : W :=
-  let w := updU (Chain.log name w.now) w
+  let w := updU (Chain.log name w.now w.running) w
   let w := st.sides.foldl (fun w s => doSide s w) w
   match st.beh with
-  | .fire d => schedule (w.now + d) (.user 0 (.stageDone none)) w
-  | .failD d k => schedule (w.now + d) (.user 0 (.stageDone (some k))) w
+  | .fire d => schedule (w.now + d) (.user w.u.iter (.stageDone none)) w
+  | .failD d k => schedule (w.now + d) (.user w.u.iter (.stageDone (some k))) w
   | _ => w
 
 /-- `clean_up_done` and `force_failure` -/
@@ -246,6 +248,42 @@ def exec (p : Prog) (_ : Nat) (a : CAct) (w : W) : W :=
     if w.stopPatched then { w with crashed := true }
     else { w with crashed := true, u := { w.u with realStops := w.u.realStops + 1 } }
 
+/-! ## the reactor's iterations
+
+A real reactor iteration (`ReactorBase.runUntilCurrent`) runs the delayed calls that are due **and were scheduled
+before the iteration began**; a call scheduled during an iteration - even with delay 0 - waits for the next
+iteration.  (`harness/vreactor.py` does the same.)  The label of a queued call is the number of the iteration in
+which it was scheduled. -/
+
+def eligible (iter : Nat) (c : DCall (QAct CAct)) : Bool :=
+  match c.act with
+  | .timeout => true
+  | .user born _ => decide (born < iter)
+
+/-- one iteration's calls: pop and run the head while it is due and eligible -/
+def drainB (p : Prog) : Nat → W → W
+  | 0, w => w
+  | n + 1, w =>
+    match w.calls with
+    | [] => w
+    | c :: rest =>
+      if c.time ≤ w.now ∧ eligible w.u.iter c = true then drainB p n (execCall (exec p) c { w with calls := rest }) else w
+
+/-- a new iteration begins -/
+def nextIter (w : W) : W := updU (fun u => { u with iter := u.iter + 1 }) w
+
+/-- `reactor.iterate(0)`: one iteration at the current time -/
+def iterateB (p : Prog) (fuel : Nat) (w : W) : W := drainB p fuel (nextIter w)
+
+/-- the loop of `reactor.run()`: while not crashed, wait for the earliest call, then one iteration -/
+def spinB (p : Prog) (fuelD : Nat) : Nat → W → W
+  | 0, w => w
+  | n + 1, w =>
+    if w.crashed then w else
+    match w.calls with
+    | [] => w
+    | c :: _ => spinB p fuelD n (iterateB p fuelD { w with now := max w.now c.time })
+
 /-! ## sizes (fuel) -/
 
 /-- an upper bound of the number of delayed calls a run can ever schedule -/
@@ -280,6 +318,7 @@ structure Trace where
   stopRequested : Bool
   raised : Bool
   stages : List (SName × Nat × Nat)
+  live : List Bool                -- per logged stage: `reactor.running` when it started
   leftover : Nat                  -- calls scheduled by the test / the interrupts that never ran
   pending : Nat                   -- `len(reactor.getDelayedCalls())` afterwards
   obsRestored : Bool              -- the log observers are the ones installed before, in the same order
@@ -304,7 +343,7 @@ def spinPhase (p : Prog) (w : W) : W :=
   let w : W := { w with stopPatched := true, running := true, crashed := false,
                         sp := { w.sp with tcall := .pending, spinning := true } }
   let w := startSetUp p w
-  spin (exec p) (fun _ => bound p) (bound p + 1) w
+  spinB p (bound p) (bound p + 1) w
 
 /-- observers while the test runs / how to put the suppressed ones back -/
 def duringObs (p : Prog) : List Nat × List Nat :=
@@ -328,9 +367,10 @@ def prepare (p : Prog) : W :=
 def afterSpin (p : Prog) : W :=
   { spinPhase p (prepare p) with running := false, stopPatched := false }
 
-/-- `_clean`'s obligatory iterations (`reactor.iterate(0)` twice for broken Twisted) -/
+/-- `_clean`'s obligatory iterations (`reactor.iterate(0)` twice for broken Twisted); the result of `Spinner.run`
+has been determined before (`try: return self._get_result() finally: self._clean()`) -/
 def afterIter (p : Prog) : W :=
-  if p.broken then drain (exec p) (bound p) (drain (exec p) (bound p) (afterSpin p)) else afterSpin p
+  if p.broken then iterateB p (bound p) (iterateB p (bound p) (afterSpin p)) else afterSpin p
 
 structure Account where
   excs : List Exc
@@ -361,10 +401,10 @@ def model (p : Prog) : Trace :=
   let w := afterIter p
   let junk := leftovers w                                    -- what `_clean` cancels and reports
   let cleaned : W := { w with calls := [], sels := [] }
-  let a := account (getResult w.sp) w.u.excs w.u.logged w.u.dropped (!junk.isEmpty)
+  let a := account (getResult (afterSpin p).sp) w.u.excs w.u.logged w.u.dropped (!junk.isEmpty)
   { events := [.startTest] ++ outcomeEvents a ++ [.stopTest], stopRequested := a.stopReq,
     raised := a.excs.contains .ki,                          -- `raise e` after `stopTest` for an unclaimed exception
-    stages := w.u.stages, leftover := (w.calls.filter isLeftover).length,
+    stages := w.u.stages, live := w.u.live, leftover := (w.calls.filter isLeftover).length,
     pending := cleaned.calls.length,
     obsRestored := afterObs p == List.range p.nObs,
     realStops := w.u.realStops, finalTime := w.now }
